@@ -7,7 +7,7 @@ from concurrent.futures import ThreadPoolExecutor
 
 VERIF = os.path.dirname(os.path.dirname(os.path.abspath(__file__)))
 REPO = os.environ.get("VERIF_REPO", "/repo")
-BUILD = os.path.join(VERIF, "build")
+BUILD = os.environ.get("VERIF_BUILD") or os.path.join(VERIF, "build")   # VERIF_BUILD: tools/seedrun.py instances running side by side
 
 LIB_SRCS = """iv_avl iv_event iv_fatal iv_task iv_timer iv_tls iv_work iv_event_raw_posix iv_fd
 iv_fd_poll iv_fd_pump iv_main_posix iv_popen iv_signal iv_thread_posix iv_tid_posix
